@@ -444,7 +444,43 @@ class C11(Property):
             if got != want or su._COMPACTION_FACTOR != factor:
                 raise InfraError('generated constants out of date: driver %r, source %r, live %r'
                                  % (got, want, su._COMPACTION_FACTOR))
+            self._check_bisect_model(d)
         return []
+
+    def _check_bisect_model(self, d):
+        """the Lean model of the stdlib's bisect_left (C11.bisectLeftPy, proved equal to the abstraction
+        C11.bisectLeft on every reachable interval table) against the bisect_left the code really calls:
+        on ANY list of [start, stop] pairs (sorted or not) both run the same loop; on sorted tables the
+        abstraction must agree as well"""
+        import random
+        import boltons.setutils as su
+        bl = getattr(su, 'bisect_left', None)
+        if bl is None:
+            import bisect
+            bl = bisect.bisect_left
+        rng = random.Random(11)
+        lines, want = [], []
+        for i in range(400):
+            n = rng.randrange(0, 12)
+            if i % 2:        # a well-formed table: increasing disjoint runs, sometimes adjacent
+                pos, tbl = 0, []
+                for _ in range(n):
+                    a = pos + rng.randrange(0, 3)
+                    b = a + rng.randrange(1, 4)
+                    tbl.append([a, b])
+                    pos = b
+            else:
+                tbl = [[rng.randrange(0, 9), rng.randrange(0, 9)] for _ in range(n)]
+            c = [rng.randrange(0, 12), 0]
+            c[1] = c[0] + 1 if rng.random() < 0.7 else rng.randrange(0, 12)
+            lines.append('bisect %d %d %s' % (c[0], c[1], ' '.join('%d %d' % (a, b) for a, b in tbl)))
+            k = bl(tbl, c)
+            want.append('py=%d abs=%d' % (k, k) if i % 2 else 'py=%d' % k)
+        got = d.query([ln.rstrip() for ln in lines])
+        for ln, g, w in zip(lines, got, want):
+            if not (g == w or (not w.count('abs') and g.startswith(w + ' '))):
+                raise InfraError('Lean model of bisect_left disagrees with the stdlib: %r -> %r, stdlib %r' % (ln, g, w))
+        self.stats['bisect_model_cases'] = len(lines)
 
     # ------------------------------------------------------------------ generation
     def cases(self, budget_s):
